@@ -115,6 +115,7 @@ NATIVE_KIND: Dict[str, str] = {
     "uint32": "uint", "uint64": "uint", "int8": "int", "int16": "int", "int32": "int", "int64": "int",
 }
 NATIVE_NAMES = list(NATIVES)
+_NATIVE_POOL = NATIVE_NAMES + [n for n in NATIVE_NAMES if re.search(r"\d", n) or n in ("char", "float", "double")]  # sized names twice
 BY_WIDTH = {w: [n for n, s in NATIVES.items() if s == w] for w in (1, 2, 4, 8)}
 LENGTHS = [1, 2, 3, 7, 8, 32, 255, 256, 1000]
 RESERVED_FIELD_NAMES = ("type_id", "type_name", "type_hash", "type_source", "type_def", "type_size", "hexdump")
@@ -150,7 +151,15 @@ _FILEWORDS = ["base", "types", "hardware", "task", "decoder", "stim", "extra", "
 
 
 class Chooser:
-    """Source of choices.  Subclasses implement integer(lo, hi) (inclusive)."""
+    """Source of choices.  Subclasses implement integer(lo, hi) (inclusive).
+
+    ``cos`` is the chooser for *cosmetic* choices (identifier spelling, concrete id values, comment texts, blank lines,
+    indentation, quoting): for Hypothesis it is a pseudo-random stream seeded by ONE drawn integer, so a closure costs a
+    few hundred Hypothesis draws instead of ~1700 (40 us each) while every choice remains a function of drawn data."""
+
+    @property
+    def cos(self) -> "Chooser":
+        return self
 
     def integer(self, lo: int, hi: int) -> int:  # pragma: no cover
         raise NotImplementedError
@@ -204,6 +213,22 @@ class HypChooser(Chooser):
 
         self._draw = draw
         self._st = st
+        self._cos = None
+
+    @property
+    def cos(self) -> "Chooser":
+        if self._cos is None:
+            self._cos = RandomChooser(self.integer(0, 0xFFFFFF))
+        return self._cos
+
+    def chance(self, p: float) -> bool:
+        """One draw: p is rounded to sixteenths (at least 1/16 when p > 0); minimal answer False."""
+        if p <= 0:
+            return False
+        if p >= 1:
+            return True
+        k = min(15, max(1, int(round(p * 16))))
+        return self._small(16) >= 16 - k
 
     _cache: Dict[int, Any] = {}
 
@@ -1037,7 +1062,7 @@ class _Builder:
 
     # ---- names and ids -------------------------------------------------------------------------
     def fresh_name(self) -> str:
-        ch = self.ch
+        ch = self.ch.cos
         if "prefix-names" in self.allow and ch.chance(0.04):
             for cand in ch.shuffled(_PREFIX_TRAPS):
                 if cand not in self.names:
@@ -1056,7 +1081,7 @@ class _Builder:
         return n
 
     def fresh_field(self, used: Set[str]) -> str:
-        ch = self.ch
+        ch = self.ch.cos
         n = ch.choice(_LOW)
         if ch.chance(0.5):
             n += "_" + ch.choice(_SUFFIX)
@@ -1069,7 +1094,7 @@ class _Builder:
 
     def fresh_id(self, pool: Set[int], lo: int, hi: int) -> int:
         for _ in range(200):
-            i = self.ch.integer(lo, hi)
+            i = self.ch.cos.integer(lo, hi)
             if i not in pool:
                 pool.add(i)
                 return i
@@ -1080,10 +1105,10 @@ class _Builder:
         raise GeneratorBug("id pool exhausted")
 
     def comment(self) -> str:
-        return self.ch.choice(_COMMENT_WORDS)
+        return self.ch.cos.choice(_COMMENT_WORDS)
 
     def decorate(self, d: Def):
-        ch = self.ch
+        ch = self.ch.cos
         if ch.chance(0.12):
             d.pre.append("")
         if ch.chance(0.12):
@@ -1145,11 +1170,11 @@ class _Builder:
         for _ in range(quota["string"]):
             name = self.fresh_name()
             if "string-special" in self.allow and ch.chance(0.3):
-                add(Def("string", name, path, value=ch.choice(_STRING_SPECIAL), flags=["string-const", "string-special"],
+                add(Def("string", name, path, value=ch.cos.choice(_STRING_SPECIAL), flags=["string-const", "string-special"],
                         style={"quote": "'"}))
             else:
-                add(Def("string", name, path, value=ch.choice(_STRING_WORDS), flags=["string-const"],
-                        style={"quote": ch.choice(['"', '"', "'"])}))
+                add(Def("string", name, path, value=ch.cos.choice(_STRING_WORDS), flags=["string-const"],
+                        style={"quote": ch.cos.choice(['"', '"', "'"])}))
         # aliases ---------------------------------------------------------------------------------------
         for _ in range(quota["alias"]):
             name = self.fresh_name()
@@ -1192,7 +1217,7 @@ class _Builder:
         for k in kinds:
             if k == "signal":
                 add(Def("signal", self.fresh_name(), path, id=self.fresh_id(self.msg_ids, 1000, 9999), flags=["signal"],
-                        style={"id_last": ch.chance(0.1)}))
+                        style={"id_last": ch.cos.chance(0.1)}))
             elif k == "reserved":
                 add(self.gen_reserved(path))
             else:
@@ -1211,7 +1236,7 @@ class _Builder:
                 flags.append("reserved-int")
                 continue
             for _ in range(50):
-                a = ch.integer(1000, 9990)
+                a = ch.cos.integer(1000, 9990)
                 n = ch.choice([1, 2, 3, 5, 10, 100])
                 ids = list(range(a, min(a + n, 10000)))
                 if not any(i in self.msg_ids for i in ids):
@@ -1221,7 +1246,7 @@ class _Builder:
             self.msg_ids.update(ids)
             b = ids[-1]
             if how == "dash":
-                text = ch.choice([f"{a} - {b}", f"{a}-{b}", f"{a} -{b}"])
+                text = ch.cos.choice([f"{a} - {b}", f"{a}-{b}", f"{a} -{b}"])
                 flags.append("reserved-range-dash")
             else:
                 text = f"{a} to {b}"
@@ -1231,7 +1256,7 @@ class _Builder:
             i = self.fresh_id(self.msg_ids, 1000, 9999)
             entries.append([i, [i]])
             flags.append("reserved-int")
-        block = ch.chance(0.2)
+        block = ch.cos.chance(0.2)
         if block:
             flags.append("reserved-block-list")
         return Def("reserved", "_RESERVED_", path, entries=entries, flags=sorted(set(flags)), style={"block_list": block})
@@ -1243,7 +1268,7 @@ class _Builder:
         if cval > 1:
             forms.append((f"{cname} - 1", cval - 1))
         if cval % 2 == 0 and cval >= 2:
-            forms.append((f"{cname} / 2", cval // 2))
+            forms.append((f"{cname} / 2", cval / 2))  # true division: the compiler's value is a float (8.0)
         forms = [f for f in forms if 1 <= f[1] <= limit] or [(cname, cval)]
         return ch.choice(forms)
 
@@ -1265,9 +1290,9 @@ class _Builder:
             t = self.taint.get(tn, set())
             return all(c in self.allow for c in t)
 
-        style = {"id_last": ch.chance(0.08), "quote_types": ch.chance(0.06)}
+        style = {"id_last": ch.cos.chance(0.08), "quote_types": ch.cos.chance(0.06)}
         mid = self.fresh_id(self.msg_ids, 1000, 9999) if kind == "message" else None
-        if kind == "message" and ch.chance(0.06):
+        if kind == "message" and ch.cos.chance(0.06):
             style["id_text"] = hex(mid)
         # field-list reuse
         reuse_c = [d for d in st_vis + ms_vis + st_loc + ms_loc if allowed(d.name, kind == "struct")]
@@ -1291,22 +1316,22 @@ class _Builder:
         hasmsg = False
         budget = 60000
         for _ in range(nf):
-            cats = [("native", 10)]
+            cats = [("native", 8)]
             al_c = [a for a in al_all if allowed(a.name, kind == "struct")]
             if al_c:
-                cats.append(("alias", 4))
+                cats.append(("alias", 3))
             st_c = [s for s in st_vis + st_loc if allowed(s.name, kind == "struct") and self.size[s.name][2] < 3]
             if st_c:
-                cats.append(("struct", 5))
+                cats.append(("struct", 3))
             ms_c = [m for m in ms_vis + ms_loc if allowed(m.name, kind == "struct") and self.size[m.name][2] < 3]
             if kind == "struct" and "struct-contains-message" not in self.allow:
                 ms_c = []
             if ms_c:
-                cats.append(("message", 3))
+                cats.append(("message", 2))
             cat = ch.weighted(cats)
             fl = set()
             if cat == "native":
-                base = ch.weighted([(n, 3 if re.search(r"\d", n) or n in ("char", "float", "double") else 1) for n in NATIVE_NAMES])
+                base = ch.choice(_NATIVE_POOL)
                 es = al = NATIVES[base]
             elif cat == "alias":
                 a = ch.choice(al_c)
@@ -1350,6 +1375,7 @@ class _Builder:
                 if consts and ch.chance(0.35):
                     c = ch.choice(consts)
                     ltext, length = self.expr_over(c.name, c.value, limit=max(1, room))
+                    length = int(length)
                     if length > room:
                         length, ltext = None, None
                     else:
@@ -1371,12 +1397,12 @@ class _Builder:
             if length is None:
                 tt = base
             else:
-                tt = ch.weighted([(f"{base}[{ltext}]", 8), (f"{base}[ {ltext} ]", 1), (f"{base} [{ltext}]", 1)])
+                tt = ch.cos.weighted([(f"{base}[{ltext}]", 8), (f"{base}[ {ltext} ]", 1), (f"{base} [{ltext}]", 1)])
             f = FieldSpec(fname, tt, base, length, ltext)
-            if ch.chance(0.06):
+            if ch.cos.chance(0.06):
                 f.comment = self.comment()
-            if ch.chance(0.04):
-                f.sep = ch.choice([":  ", " : "])
+            if ch.cos.chance(0.04):
+                f.sep = ch.cos.choice([":  ", " : "])
             fields.append(f)
             off += es * (length or 1)
             maxal = max(maxal, al)
@@ -1419,6 +1445,7 @@ class _Builder:
 
 
 def _file_names(ch: Chooser, n: int, ndirs: int) -> Tuple[List[str], List[str]]:
+    ch = ch.cos
     dirs = [""]
     pool = ch.shuffled(_DIRS[1:])
     while len(dirs) < ndirs:
@@ -1492,15 +1519,16 @@ def build_program(ch: Chooser, max_files: int = 6, min_files: int = 1, import_co
                 s.imports.append([sp, t])
                 classes.add("respell")
                 break
+    cs = ch.cos
     for s in specs:
-        s.indent = ch.choice([2, 4])
-        if ch.chance(0.3):
-            s.header = [f"# {posixpath.basename(s.path)}"] + ([""] if ch.chance(0.5) else [])
-        if ch.chance(0.25):
-            s.section_order = ch.shuffled(s.section_order)
-        s.null_sections = [sec for sec in ["imports"] + SECTIONS if ch.chance(0.12)]
+        s.indent = cs.choice([2, 4])
+        if cs.chance(0.3):
+            s.header = [f"# {posixpath.basename(s.path)}"] + ([""] if cs.chance(0.5) else [])
+        if cs.chance(0.25):
+            s.section_order = cs.shuffled(s.section_order)
+        s.null_sections = [sec for sec in ["imports"] + SECTIONS if cs.chance(0.12)]
         for sp, _ in s.imports:
-            if ch.chance(0.1):
+            if cs.chance(0.1):
                 s.import_comments[sp] = "MTs 1000-1999"
     # fill the files in the order the parser reads their bodies
     prog = Program(specs, paths[0], opts, gshape, classes)
@@ -1523,7 +1551,7 @@ def build_program(ch: Chooser, max_files: int = 6, min_files: int = 1, import_co
         b.fill_file(prog.spec(f), vis, quota)
     for s_ in specs:
         if not s_.imports and not s_.defs and not s_.null_sections:
-            s_.null_sections = [ch.choice(["imports"] + SECTIONS)]  # a file always has at least one section key
+            s_.null_sections = [cs.choice(["imports"] + SECTIONS)]  # a file always has at least one section key
     prog.classes |= b.classes
     prog.rerender()
     an = prog._analysis()
@@ -1576,10 +1604,11 @@ class _Ctx:
                 self.host_ids.add(d.value)
 
     def fresh_name(self) -> str:
-        a = self.ch.choice(_UP)
-        n = a + "_" + self.ch.choice([w for w in _UP if w != a])
-        if self.ch.chance(0.3):
-            n += "_" + str(self.ch.integer(2, 9))
+        c = self.ch.cos
+        a = c.choice(_UP)
+        n = a + "_" + c.choice([w for w in _UP if w != a])
+        if c.chance(0.3):
+            n += "_" + str(c.integer(2, 9))
         base, k = n, 2
         while n in self.names:
             n = f"{base}_{k}"
@@ -1588,7 +1617,8 @@ class _Ctx:
         return n
 
     def fresh_field(self, used: Set[str]) -> str:
-        n = self.ch.choice(_LOW) + ("_" + self.ch.choice(_SUFFIX) if self.ch.chance(0.6) else "")
+        c = self.ch.cos
+        n = c.choice(_LOW) + ("_" + c.choice(_SUFFIX) if c.chance(0.6) else "")
         base, k = n, 2
         while n in used or n in RESERVED_FIELD_NAMES:
             n = f"{base}{k}"
@@ -1598,7 +1628,7 @@ class _Ctx:
 
     def _fresh(self, pool: Set[int], lo: int, hi: int, span: int = 1) -> int:
         for _ in range(500):
-            i = self.ch.integer(lo, hi)
+            i = self.ch.cos.integer(lo, hi)
             if all(j not in pool for j in range(i - span, i + span + 1)):
                 pool.add(i)
                 return i
@@ -1647,7 +1677,7 @@ def build_layout_program(ch: Chooser, auto_pad: Optional[bool] = None, import_co
         specs[0].imports.append([sub, tgt])
         specs.append(FileSpec(path=tgt))
     for s in specs:
-        s.indent = ch.choice([2, 4])
+        s.indent = ch.cos.choice([2, 4])
     prog = Program(specs, "root.yaml", opts, "chain" if two else "single", {"layout-profile"}, wellformed=True)
     ctx = _Ctx(prog, ch)
     order = [specs[1], specs[0]] if two else [specs[0]]
@@ -2270,14 +2300,14 @@ def relocate(program: Program, message_name: str, ch: Chooser, new_file: Optiona
         created = False
         if tgt is None:
             dirs = sorted({posixpath.dirname(s.path) for s in q.specs}) + ["moved", "deep/er"]
-            dd = ch.choice(dirs)
-            base = ch.choice(["moved", "relocated", "split", "part"])
+            dd = ch.cos.choice(dirs)
+            base = ch.cos.choice(["moved", "relocated", "split", "part"])
             k = 0
             tgt = (dd + "/" if dd else "") + base + ".yaml"
             while any(s.path == tgt for s in q.specs):
                 k += 1
                 tgt = (dd + "/" if dd else "") + f"{base}{k}.yaml"
-            ns = FileSpec(path=tgt, indent=ch.choice([2, 4]))
+            ns = FileSpec(path=tgt, indent=ch.cos.choice([2, 4]))
             q.specs.append(ns)
             isp = q.spec(importer)
             sp = _spell(ch, importer, tgt, [], variant=0)
@@ -2304,44 +2334,45 @@ def add_noise(program: Program, ch: Chooser, intensity: int = 3) -> Program:
         op = ch.choice(["comments", "blank", "indent", "sections", "nulls", "spacing", "quote", "hexid", "idlast", "newdefs",
                         "imports-order", "respell", "extra-import", "header"])
         s = ch.choice(q.specs)
+        cs = ch.cos
         if op == "comments":
             for d in s.defs:
-                if ch.chance(0.4):
-                    d.pre.append(ch.choice(["", "  "]) + "# " + ch.choice(_COMMENT_WORDS))
-                if ch.chance(0.3):
-                    d.post = ch.choice(_COMMENT_WORDS)
+                if cs.chance(0.4):
+                    d.pre.append(cs.choice(["", "  "]) + "# " + cs.choice(_COMMENT_WORDS))
+                if cs.chance(0.3):
+                    d.post = cs.choice(_COMMENT_WORDS)
                 for f in d.fields or []:
-                    if ch.chance(0.3):
-                        f.comment = ch.choice(_COMMENT_WORDS)
+                    if cs.chance(0.3):
+                        f.comment = cs.choice(_COMMENT_WORDS)
         elif op == "blank":
             for d in s.defs:
-                if ch.chance(0.5):
+                if cs.chance(0.5):
                     d.pre.insert(0, "")
         elif op == "indent":
             s.indent = 6 - s.indent if s.indent in (2, 4) else 2
         elif op == "sections":
-            s.section_order = ch.shuffled(s.section_order)
+            s.section_order = cs.shuffled(s.section_order)
         elif op == "nulls":
-            s.null_sections = [sec for sec in ["imports"] + SECTIONS if ch.chance(0.4)]
+            s.null_sections = [sec for sec in ["imports"] + SECTIONS if cs.chance(0.4)]
         elif op == "spacing":
             for d in s.defs:
                 for f in d.fields or []:
-                    if ch.chance(0.5):
-                        f.sep = ch.choice([":  ", " : ", ":   "])
+                    if cs.chance(0.5):
+                        f.sep = cs.choice([":  ", " : ", ":   "])
         elif op == "quote":
             for d in s.defs:
-                if d.fields and ch.chance(0.5):
+                if d.fields and cs.chance(0.5):
                     d.style["quote_types"] = not d.style.get("quote_types")
         elif op == "hexid":
             for d in s.defs:
-                if d.kind in ("message", "signal") and ch.chance(0.5):
+                if d.kind in ("message", "signal") and cs.chance(0.5):
                     d.style["id_text"] = hex(d.id)
         elif op == "idlast":
             for d in s.defs:
-                if d.kind in ("message", "signal") and ch.chance(0.5):
+                if d.kind in ("message", "signal") and cs.chance(0.5):
                     d.style["id_last"] = not d.style.get("id_last")
         elif op == "header":
-            s.header = ["# " + ch.choice(_COMMENT_WORDS), ""] + s.header
+            s.header = ["# " + cs.choice(_COMMENT_WORDS), ""] + s.header
         elif op == "newdefs":
             for _k in range(ch.integer(1, 3)):
                 kind = ch.choice(["constant", "string", "alias", "struct", "message", "signal", "host", "module"])
@@ -2516,10 +2547,12 @@ class ShrinkBudget:
     def wrap(self, strategy):
         from hypothesis import strategies as st
 
+        self._none = st.just(None)
+
         @st.composite
         def _g(draw):
             if self.expired():
-                return None
+                return draw(self._none)
             return draw(strategy)
 
         return _g()
